@@ -1,20 +1,227 @@
+//! Engine C — the DFIR compiler used as a library (C17–C20). See /verif/DESIGN.md §2, §3.
+mod c17;
+mod family;
+mod oracle;
+mod pipeline;
+mod props;
+mod snap;
+
+use std::collections::BTreeMap;
+use std::sync::Mutex;
+
+use vf_explore::{Report, Stats, Value, cli, json, ncpu, par_map, quiet_panics};
+
+use family::{Order, Prog};
+use props::CaseOut;
+
+/// A violation candidate collected by a worker; the smallest case per key is re-executed and
+/// reported.
+pub struct Viol {
+    pub key: String,
+    pub what: String,
+    pub size: usize,
+    pub case: Value,
+}
+
+fn eval_case(prop: &str, text: &str, do_modules: bool, thorough: bool) -> CaseOut {
+    match prop {
+        "C18" => props::c18_case(text),
+        "C19" => props::c19_case(text),
+        "C20" => props::c20_case(text, do_modules, thorough),
+        _ => unreachable!(),
+    }
+}
+
+fn program_family(rep: &mut Report, viols: &Mutex<Vec<Viol>>, machinery: &Mutex<Vec<String>>) {
+    let prop = rep.property.clone();
+    let thorough = rep.thorough();
+    let fams = family::families(thorough);
+    let orders = family::orders(thorough);
+    let notes: Mutex<BTreeMap<String, (u64, String)>> = Mutex::new(BTreeMap::new());
+    let tags: Mutex<BTreeMap<String, u64>> = Mutex::new(BTreeMap::new());
+    let mut fam_info = vec![];
+    for (fi, fam) in fams.iter().enumerate() {
+        let progs: Vec<Prog> = fam.programs();
+        fam_info.push(json!({"family": fam.name, "programs": progs.len(), "max_nodes": fam.n_max,
+            "alphabet": fam.alphabet.iter().map(|k| format!("{k:?}")).collect::<Vec<_>>(), "max_refs": fam.max_refs}));
+        let chunk = 16usize;
+        let nchunks = progs.len().div_ceil(chunk);
+        let st = par_map(nchunks, ncpu().min(16), |ci| {
+            let mut st = Stats::new();
+            let mut local_tags: BTreeMap<String, u64> = BTreeMap::new();
+            for pi in ci * chunk..((ci + 1) * chunk).min(progs.len()) {
+                let p = &progs[pi];
+                for (oi, &ord) in orders.iter().enumerate() {
+                    let Some(text) = p.text(ord) else { continue };
+                    // merge_modules variants are independent of the declaration order: first order only
+                    let out = eval_case(&prop, &text, oi == 0, thorough);
+                    if let Some(m) = &out.machinery {
+                        machinery.lock().unwrap().push(m.clone());
+                        continue;
+                    }
+                    *local_tags.entry(if out.tag.starts_with("ok:") { "ok".to_string() } else { out.tag.split("/len").next().unwrap_or("").to_string() }).or_default() += 1;
+                    for n in &out.notes {
+                        let mut g = notes.lock().unwrap();
+                        let e = g.entry(n.clone()).or_insert((0, text.clone()));
+                        e.0 += 1;
+                        if text.len() < e.1.len() {
+                            e.1 = text.clone();
+                        }
+                    }
+                    if !out.evaluated {
+                        continue;
+                    }
+                    st.eval();
+                    st.nontrivial(&(fi, pi, oi));
+                    st.outcome(&out.tag);
+                    if pi % 53 == 7 && oi == 0 {
+                        st.sample(|| json!({"family": fam.name, "program": text, "outcome": out.tag}));
+                    }
+                    for (key, what) in out.viols {
+                        viols.lock().unwrap().push(Viol {
+                            key,
+                            what,
+                            size: p.kinds.len() * 1000 + p.refs.len() * 100 + text.len(),
+                            case: json!({"kind": "program", "property": prop, "text": text, "modules": oi == 0, "thorough": thorough,
+                                         "family": fam.name, "prog": p.to_json(), "order": [ord.node_rev, ord.edge_rev]}),
+                        });
+                    }
+                }
+            }
+            let mut g = tags.lock().unwrap();
+            for (k, v) in local_tags {
+                *g.entry(k).or_default() += v;
+            }
+            st
+        });
+        rep.section(fam.name, st);
+    }
+    rep.bounds.insert("families".into(), json!(fam_info));
+    rep.bounds.insert(
+        "declaration_orders".into(),
+        json!(orders.iter().map(|o: &Order| format!("nodes_rev={} edges_rev={}", o.node_rev, o.edge_rev)).collect::<Vec<_>>()),
+    );
+    let tags = tags.into_inner().unwrap();
+    println!("outcome classes (all generated program variants):");
+    for (k, v) in &tags {
+        println!("  {v:>8}  {k}");
+    }
+    rep.bounds.insert("outcome_classes".into(), json!(tags));
+    let notes = notes.into_inner().unwrap();
+    for (k, (n, ex)) in &notes {
+        println!("OBSERVATION ({n} programs): {k}\n  smallest example:\n{}", ex.lines().map(|l| format!("    {l}")).collect::<Vec<_>>().join("\n"));
+    }
+    rep.bounds.insert(
+        "observations".into(),
+        json!(notes.iter().map(|(k, (n, ex))| json!({"what": k, "programs": n, "example": ex})).collect::<Vec<_>>()),
+    );
+}
+
+fn replay_case(case: &Value) -> Vec<(String, String)> {
+    match case["kind"].as_str().unwrap_or("") {
+        "program" => {
+            let out = eval_case(
+                case["property"].as_str().unwrap(),
+                case["text"].as_str().unwrap(),
+                case["modules"].as_bool().unwrap_or(true),
+                case["thorough"].as_bool().unwrap_or(false),
+            );
+            if let Some(m) = out.machinery {
+                println!("MACHINERY-ERROR: {m}");
+                std::process::exit(2);
+            }
+            println!("observed: {}", out.tag);
+            out.viols
+        }
+        _ => c17::replay(case).into_iter().collect(),
+    }
+}
+
 fn main() {
-    use dfir_lang::graph::*;
-    use dfir_lang::parse::DfirCode;
-    let src = "a = source_iter([1]) -> tee(); a -> map(|x| x) -> u; a -> defer_tick() -> u; u = union() -> for_each(|_| {});";
-    let code: DfirCode = syn::parse_str(src).unwrap();
-    let out = FlatGraphBuilder::from_dfir(code).build().unwrap();
-    let mut flat = out.flat_graph;
-    flat.merge_modules().unwrap();
-    eliminate_extra_unions_tees(&mut flat);
-    let part = partition_graph(flat).unwrap();
-    let mut diags = dfir_lang::diagnostic::Diagnostics::new();
-    let root = quote::quote! { ::dfir_rs };
-    let code = part.as_code(&root, true, quote::quote! {}, &mut diags).unwrap();
-    let json = serde_json::to_string(&part).unwrap();
-    println!("{}", code.to_string().len());
-    println!("{}", json);
-    let d = dfir_rs::scheduled::context::Dfir::new(dfir_rs::scheduled::context::NullTickClosure, Default::default(), Some(&json), Some("[]"));
-    let mg = d.meta_graph().unwrap();
-    println!("{}", serde_json::to_string(mg).unwrap() == json);
+    let cli = cli();
+    if std::env::var("VF_LOUD").is_err() {
+        quiet_panics();
+    }
+    if let Some(f) = &cli.replay {
+        let body: Value = serde_json::from_str(&std::fs::read_to_string(f).expect("cannot read replay file")).expect("replay file is not JSON");
+        let key = body["key"].as_str().unwrap_or("").to_string();
+        let vs = replay_case(&body["case"]);
+        for (k, w) in &vs {
+            println!("violates: {k}\n{w}");
+        }
+        if vs.iter().any(|(k, _)| *k == key) || (!vs.is_empty() && key.is_empty()) {
+            println!("VIOLATION property={} replay={}", cli.property, f);
+            std::process::exit(1);
+        }
+        println!("replayed case does not violate `{key}` any more");
+        std::process::exit(0);
+    }
+    let mut rep = Report::new(&cli.property, &cli.tier, "vf_dfir_graph");
+    let viols: Mutex<Vec<Viol>> = Mutex::new(vec![]);
+    let machinery: Mutex<Vec<String>> = Mutex::new(vec![]);
+    match cli.property.as_str() {
+        "COUNT" => {
+            let t = std::time::Instant::now();
+            for f in family::families(rep.thorough()) {
+                println!("{:<12} {:>8} programs  ({:?})", f.name, f.programs().len(), t.elapsed());
+            }
+            std::process::exit(0);
+        }
+        "C17" => c17::run(&mut rep, &viols),
+        "C18" => {
+            rep.rule = "a case = (program of the bounded-exhaustive family, declaration order); evaluated = accepted by the flat-graph builder AND by partition_graph; distinct = distinct (program up to isomorphism, order)".into();
+            rep.explanation = "syn::parse_str::<DfirCode> -> FlatGraphBuilder -> merge_modules -> eliminate_extra_unions_tees -> partition_graph -> as_code (dfir_lang as a library, no rustc); oracle computed from the public DfirGraph API only: partition of the input wiring, every subgraph one connected pull-prefix/push-suffix pipeline in one loop, cross-subgraph edge => exactly one handoff, delayed input <=> marked handoff (Tick->Loop inside nested loops), order lists every subgraph once and runs producers (edges, reference producers, earlier access groups) first, loops contiguous and nested; as_code succeeds.".into();
+            rep.assume("operator classes are represented by one operator each (the partitioner only looks at arity, colour, input_delaytype_fn, flo_type, references, loop context)");
+            rep.assume("input_delaytype_fn of the operator table is the specification of which inputs are delayed");
+            rep.assume("pull/push colour forced by arity: >1 inputs => pull, >1 outputs => push, source => pull, sink => push; resolve_futures_blocking => push");
+            program_family(&mut rep, &viols, &machinery);
+        }
+        "C19" => {
+            rep.rule = "a case = (program of the family incl. every cyclic wiring of the same operator multisets, declaration order); evaluated = reaches partition_graph; distinct = distinct (program, order)".into();
+            rep.explanation = "own dependency graph from the FLAT graph (non-delayed edges, handoff -> referencing operator, referencing operator -> pipe consumer of that handoff, earlier access group -> later group) + own Kahn: partition_graph must return Err exactly when it is cyclic, the nodes named in the diagnostic must form a cycle of it, and on Ok the C18 oracle applies.".into();
+            rep.assume("'reference dependencies' include borrow-before-drain (a referencing operator runs before the pipe consumer that drains the referenced handoff); acceptance of a graph that is cyclic only through such edges would be keyed separately");
+            rep.assume("diagnostic names are matched to nodes by their pretty-printed text (some assignment of distinct nodes must form a cycle)");
+            program_family(&mut rep, &viols, &machinery);
+        }
+        "C20" => {
+            rep.rule = "a case = (program, declaration order) accepted by the flat-graph builder; per case: (a) eliminate_extra_unions_tees, (b) ModuleBoundary insertion variants + merge_modules (first order only), (c) JSON round trip through the real dfir_rs Dfir::new; distinct = distinct (program, order)".into();
+            rep.explanation = "(a) flat graph before/after elimination: same operators/arguments/references, wiring equals own contraction of 1-in-1-out unions/tees; (b) boundaries inserted through insert_intermediate_node / insert_node+insert_edge (per-edge for every edge subset, two in a row, one shared boundary with indexed ports), after merge_modules the graph equals the boundary-free graph; (c) serde_json of the partitioned graph -> Dfir::new (serde_json::from_str + insert_node_op_insts_all) -> identical operators, arguments, operator-instance ports, edges/ports, subgraph membership, handoffs, delay marks, subgraph order, loops, references; re-serialization byte-identical; the JSON literal is the one embedded by as_code; stage-by-stage mirror == build_dfir_code.".into();
+            rep.assume("module boundaries cannot be written in surface text without import files; they are inserted through the public DfirGraph API");
+            program_family(&mut rep, &viols, &machinery);
+        }
+        other => {
+            eprintln!("vf_dfir_graph does not serve property {other}");
+            std::process::exit(2);
+        }
+    }
+    let machinery = machinery.into_inner().unwrap();
+    if !machinery.is_empty() {
+        println!("MACHINERY-ERROR: {} harness-side failures, first:\n{}", machinery.len(), machinery[0]);
+        std::process::exit(2);
+    }
+    // Smallest case per key, re-executed before it is reported.
+    let mut vs = viols.into_inner().unwrap();
+    vs.sort_by(|a, b| (&a.key, a.size, a.case.to_string()).cmp(&(&b.key, b.size, b.case.to_string())));
+    let mut counts: BTreeMap<String, u64> = BTreeMap::new();
+    for v in &vs {
+        *counts.entry(v.key.clone()).or_default() += 1;
+    }
+    let mut st = Stats::new();
+    let mut done: Vec<String> = vec![];
+    for v in &vs {
+        if done.contains(&v.key) {
+            st.violations_total += 1;
+            continue;
+        }
+        done.push(v.key.clone());
+        let again = replay_case(&v.case);
+        if !again.iter().any(|(k, _)| *k == v.key) {
+            println!("MACHINERY-ERROR: violation `{}` did not reproduce on re-execution", v.key);
+            std::process::exit(2);
+        }
+        println!("violation class `{}`: {} cases; smallest:\n{}", v.key, counts[&v.key], v.what);
+        st.violation(v.key.clone(), v.what.clone(), v.case.clone());
+    }
+    rep.section("violations", st);
+    rep.finish();
 }
